@@ -2,7 +2,8 @@
 CONSTANTS
   MaxOps = 5
   MaxBlocks = 1
-  Layouts = {"line", "inline", "cont", "mltag"}
+  Layouts = {"line", "inline", "cont", "mltag", "mb"}
+  FixU1 = TRUE
   FixF1 = TRUE
   FixDV1 = FALSE
   FixDV2 = FALSE
